@@ -20,7 +20,7 @@ def configs(tier):
         params = [(2, 1.5, 0.5)]
         names = None
         grids = ['u3', 'nu4']
-        bound = 2
+        bound = 3
     else:
         params = [(1, 1.5, 0.5), (2, 1.5, 0.5), (3, 0.7, 2.0)]
         names = None
